@@ -141,8 +141,10 @@ public:
         m_evecs.setIdentity();
 
         // Scale matrix to improve stability
-        const Scalar scale = (std::max)(mat.diagonal().cwiseAbs().maxCoeff(),
-                                        mat.diagonal(-1).cwiseAbs().maxCoeff());
+        // (a 1x1 matrix has an empty sub-diagonal, on which maxCoeff() must not be called)
+        Scalar scale = mat.diagonal().cwiseAbs().maxCoeff();
+        if (m_n > 1)
+            scale = (std::max)(scale, mat.diagonal(-1).cwiseAbs().maxCoeff());
         // If scale=0, mat is a zero matrix, so we can early stop
         if (scale < near_0)
         {
